@@ -240,7 +240,7 @@ def _judge(world, res, log, written, terminated):
             res.check('C17.complete', g == w,
                       lambda: '%s: wrote %d bytes, %d delivered after the final drain%s' % (
                           who, len(w), len(g), ' (the worker exited by itself and was reaped before its pipe was drained)' if exited else ''),
-                      where='watcher.reap_process/pipe-closed-before-drained' if exited and len(g) % 1024 == 0 and len(g) < len(w)
+                      where='watcher.reap_process/pipe-closed-before-drained' if exited and w.startswith(g) and len(g) < len(w)
                       else 'redirector.Handler', nontrivial=bool(w))
 
 
